@@ -24,21 +24,7 @@ pub mod g {
     use crate::chess::square::{File, Rank, FILES, RANKS};
     pub use crate::verif_support::gtext::{String, ToString, Vec};
 
-    /// ghost carrier: a square, with the two accessors the writer uses; `notation` is /repo's text
-    #[derive(Clone, Copy)]
-    pub struct Square(pub crate::chess::square::Square);
-    impl Square {
-        pub fn from_file_and_rank(file: File, rank: Rank) -> Self {
-            Square(crate::chess::square::Square::from_file_and_rank(file, rank))
-        }
-        pub fn file(self) -> File {
-            self.0.file()
-        }
-        pub fn rank(self) -> Rank {
-            self.0.rank()
-        }
-        //@@ body: chess/square.rs :: impl Square / fn notation => notation
-    }
+    pub use crate::verif_support::gsq::Square;
 
     /// ghost carrier: the by-square view of the board (that the three views agree is C02's invariant)
     pub struct Board {
@@ -135,7 +121,6 @@ fn spec_rank(rank: &[Option<Piece>; 8], out: &mut gtext::String) {
 }
 
 //@ obligation: C06.writer.rank_text
-//@ status: experimental
 //@ domain: complete
 //@ functions: chess/fen/fen_writer.rs::format_rank, chess/fen/fen_writer.rs::format_piece
 //@ timeout: 900
@@ -236,7 +221,6 @@ fn any_fields_game() -> g::Game {
 }
 
 //@ obligation: C06.writer.castling_field
-//@ status: experimental
 //@ domain: complete
 //@ functions: chess/fen/fen_writer.rs::format_castle_rights
 //@ timeout: 600
@@ -269,17 +253,16 @@ fn vk_c06_writer_castling_field() {
     }
 }
 
-//@ obligation: C06.writer.side_ep_counters
-//@ status: experimental
+//@ obligation: C06.writer.side_and_ep_fields
 //@ domain: complete
-//@ functions: chess/fen/fen_writer.rs::format_current_player, chess/fen/fen_writer.rs::format_en_passant_target, chess/fen/fen_writer.rs::format_halfmove_clock, chess/fen/fen_writer.rs::format_fullmove_number, chess/square.rs::Square::notation, chess/game.rs::Game::turn
+//@ functions: chess/fen/fen_writer.rs::format_current_player, chess/fen/fen_writer.rs::format_en_passant_target, chess/square.rs::Square::notation
 //@ timeout: 600
 //@ mem_gb: 4
-//@ note: side to move is written 'w' / 'b'; the en-passant field is '-' or the target square's file letter and rank digit, for all 64 squares; the two counters are the (ghost library's) decimal rendering of the halfmove clock and of plies / 2 + 1, for all u32
+//@ note: side to move is written 'w' / 'b'; the en-passant field is '-' or the target square's file letter and rank digit, for all 64 squares
 //@ assumes: ghost text library (support/gtext.rs) stands for alloc's String / format! / ToString: concatenation of Display renderings in order; Display for File / Rank writes notation()
 #[kani::proof]
-#[kani::unwind(98)]
-fn vk_c06_writer_side_ep_counters() {
+#[kani::unwind(8)]
+fn vk_c06_writer_side_and_ep_fields() {
     let g = any_fields_game();
     let side = g::format_current_player(&g);
     assert!(side.len() == 1 && side.byte(0) == if g.player == Player::White { b'w' } else { b'b' });
@@ -289,20 +272,60 @@ fn vk_c06_writer_side_ep_counters() {
         None => assert!(ep.len() == 1 && ep.byte(0) == b'-'),
         Some(s) => assert!(ep.len() == 2 && ep.byte(0) == b'a' + s.0.idx() % 8 && ep.byte(1) == b'1' + s.0.idx() / 8),
     }
-    // counters: the numeral read back as a number is the field
-    let hm = g::format_halfmove_clock(&g);
-    assert!(hm.eq_text(&gtext::ToString::to_string(&g.halfmove_clock)));
-    let fm = g::format_fullmove_number(&g);
-    assert!(fm.eq_text(&gtext::ToString::to_string(&(g.plies / 2 + 1))));
+}
+
+/// scope for the two counter fields: `x.to_string()` is a CONTRACT function that writes the four raw bytes of the u32 it
+/// is applied to (injective, no division), so the obligation reads off WHICH number each field renders; that alloc renders
+/// a u32 as its decimal numeral is part of the ghost-library assumption
+pub mod g4 {
+    #![no_implicit_prelude]
+    use ::core::prelude::rust_2021::*;
+    pub use super::g::Game;
+    pub use crate::verif_support::gtext::String;
+    pub trait ToString {
+        fn to_string(&self) -> String;
+    }
+    impl ToString for u32 {
+        fn to_string(&self) -> String {
+            let mut s = String::new();
+            let b = self.to_le_bytes();
+            s.push_byte(b[0]);
+            s.push_byte(b[1]);
+            s.push_byte(b[2]);
+            s.push_byte(b[3]);
+            s
+        }
+    }
+    //@@ body: chess/fen/fen_writer.rs :: fn format_halfmove_clock => format_halfmove_clock pub
+    //@@ body: chess/fen/fen_writer.rs :: fn format_fullmove_number => format_fullmove_number pub
+}
+
+//@ obligation: C06.writer.counters
+//@ domain: complete
+//@ functions: chess/fen/fen_writer.rs::format_halfmove_clock, chess/fen/fen_writer.rs::format_fullmove_number, chess/game.rs::Game::turn
+//@ timeout: 600
+//@ mem_gb: 4
+//@ note: for all u32 values of the two counters: the halfmove field renders exactly game.halfmove_clock and the fullmove field renders exactly plies / 2 + 1 (the inverse of the reader's plies_from_fullmove_number, C06.plies.clock_codec), each as the to_string() of that u32
+//@ assumes: alloc's to_string() of a u32 is its canonical decimal numeral (ghost-library assumption; the contract function used here is injective so a wrong number cannot hide)
+#[kani::proof]
+#[kani::unwind(8)]
+fn vk_c06_writer_counters() {
+    let g = any_fields_game();
+    let hm = g4::format_halfmove_clock(&g);
+    assert!(hm.eq_bytes(&g.halfmove_clock.to_le_bytes()));
+    let fm = g4::format_fullmove_number(&g);
+    assert!(fm.eq_bytes(&(g.plies / 2 + 1).to_le_bytes()));
+    kani::cover!(g.plies == u32::MAX);
 }
 
 //@ obligation: C06.writer.whole_text
 //@ status: experimental
+//@ tier: thorough
 //@ domain: complete
 //@ functions: chess/fen/fen_writer.rs::write, chess/fen/fen_writer.rs::format_board, chess/fen/fen_writer.rs::format_rank, chess/fen/fen_writer.rs::format_piece, chess/fen/fen_writer.rs::format_castle_rights, chess/fen/fen_writer.rs::format_current_player, chess/fen/fen_writer.rs::format_en_passant_target
 //@ timeout: 1800
 //@ mem_gb: 10
-//@ note: for every board content (13^64), side, rights, ep square and counters the text written by write() is byte for byte the FEN the standard prescribes (independent spec: ranks 8 down to 1 separated by '/', files a to h, maximal runs of empty squares as one digit, then side, rights, ep square, halfmove clock, fullmove number separated by single spaces)
+//@ note: MEASURED: memory limit of 10 GB exceeded after ~20 min -- kept experimental; the same clause is decided modularly by rank_text + board_layout + the field obligations + assembly.  For every board content (13^64), side, rights, ep square and counters the text written by write() is byte for byte the FEN the standard prescribes (independent spec: ranks 8 down to 1 separated by '/', files a to h, maximal runs of empty squares as one digit, then side, rights, ep square, halfmove clock, fullmove number separated by single spaces)
 //@ assumes: ghost text library (support/gtext.rs) stands for alloc's String / format! / ToString / join: concatenation of Display renderings in order; Display for File / Rank writes notation()
 #[kani::proof]
 #[kani::unwind(98)]
@@ -352,8 +375,140 @@ fn vk_c06_writer_whole_text() {
     assert!(got.eq_text(&want), "write() differs from the FEN the standard prescribes");
 }
 
+// ---------------------------------------------------------------------------------------------------------------------
+// modular form of the two composite writers: callee -> contract function that TAGS its output, so that the caller's text
+// shows which callee results were used, in which order and with which separators
+// ---------------------------------------------------------------------------------------------------------------------
+pub mod g2 {
+    #![no_implicit_prelude]
+    use ::core::prelude::rust_2021::*;
+    use crate::chess::piece::Piece;
+    use crate::chess::square::{FILES, RANKS};
+    pub use super::g::{Board, Square};
+    pub use crate::verif_support::gtext::{String, ToString, Vec};
+    macro_rules! assert { ($c:expr, $m:expr) => { ::kani::assert($c, $m) }; ($c:expr) => { ::kani::assert($c, "assertion") } }
+
+    /// CONTRACT of format_rank as seen by format_board: a function of the eight squares handed over, in order
+    /// (tag text: one code byte per square) -- what the text really is: C06.writer.rank_text
+    pub fn format_rank(rank: &[Option<Piece>]) -> String {
+        assert!(rank.len() == 8, "format_rank is handed exactly the eight squares of one rank");
+        let mut s = String::new();
+        let mut i = 0;
+        while i < 8 {
+            s.push_byte(match rank[i] {
+                None => b'.',
+                Some(p) => super::spec_letter(p),
+            });
+            i += 1;
+        }
+        s
+    }
+    //@@ body: chess/fen/fen_writer.rs :: fn format_board => format_board pub
+}
+
+pub mod g3 {
+    #![no_implicit_prelude]
+    use ::core::prelude::rust_2021::*;
+    pub use super::g::{Board, Game};
+    pub use crate::verif_support::gtext::{String, ToString, Vec};
+    macro_rules! assert { ($c:expr, $m:expr) => { ::kani::assert($c, $m) }; ($c:expr) => { ::kani::assert($c, "assertion") } }
+    fn tag(c: u8) -> String {
+        let mut s = String::new();
+        s.push_byte(c);
+        s
+    }
+    // CONTRACTS of the six field writers as seen by write(): distinct one-byte tags; each must be handed THIS game / its board
+    pub static mut GAME_ADDR: usize = 0;
+    pub static mut BOARD_ADDR: usize = 0;
+    fn is_game(g: &Game) {
+        assert!(g as *const Game as usize == unsafe { GAME_ADDR }, "field writer called on another game value");
+    }
+    pub fn format_board(b: &Board) -> String {
+        assert!(b as *const Board as usize == unsafe { BOARD_ADDR }, "format_board called on another board");
+        tag(b'B')
+    }
+    pub fn format_current_player(g: &Game) -> String {
+        is_game(g);
+        tag(b'S')
+    }
+    pub fn format_castle_rights(g: &Game) -> String {
+        is_game(g);
+        tag(b'C')
+    }
+    pub fn format_en_passant_target(g: &Game) -> String {
+        is_game(g);
+        tag(b'E')
+    }
+    pub fn format_halfmove_clock(g: &Game) -> String {
+        is_game(g);
+        tag(b'H')
+    }
+    pub fn format_fullmove_number(g: &Game) -> String {
+        is_game(g);
+        tag(b'F')
+    }
+    //@@ body: chess/fen/fen_writer.rs :: fn write => write pub
+}
+
+//@ obligation: C06.writer.board_layout
+//@ domain: complete
+//@ functions: chess/fen/fen_writer.rs::format_board
+//@ timeout: 900
+//@ mem_gb: 6
+//@ note: format_board against the contract of format_rank: for every board content the board field is the eight rank texts of ranks 8, 7, ..., 1 in that order, each computed from the squares of files a..h of that rank in that order, separated by single '/' (no leading or trailing separator)
+//@ assumes: ghost text library (support/gtext.rs) stands for alloc's String / Vec / collect / join; callee contract C06.writer.rank_text
+#[kani::proof]
+#[kani::unwind(98)]
+fn vk_c06_writer_board_layout() {
+    let mut sq: [Option<Piece>; 64] = [None; 64];
+    let mut i = 0;
+    while i < 64 {
+        sq[i] = any_piece_opt();
+        i += 1;
+    }
+    let board = g::Board { sq };
+    let got = g2::format_board(&board);
+    let mut want = gtext::String::new();
+    let mut r: usize = 8;
+    while r > 0 {
+        r -= 1;
+        let mut f = 0;
+        while f < 8 {
+            want.push_byte(match board.sq[r * 8 + f] {
+                None => b'.',
+                Some(p) => spec_letter(p),
+            });
+            f += 1;
+        }
+        if r > 0 {
+            want.push_byte(b'/');
+        }
+    }
+    kani::cover!(got.len() == 71);
+    assert!(got.eq_text(&want), "board field: wrong rank order, file order or separators");
+}
+
+//@ obligation: C06.writer.assembly
+//@ domain: complete
+//@ functions: chess/fen/fen_writer.rs::write
+//@ timeout: 600
+//@ mem_gb: 4
+//@ note: write() against the contracts of the six field writers: the FEN is board, side, castling rights, en-passant target, halfmove clock, fullmove number -- each computed from THIS game -- in that order, separated by single spaces, nothing before or after
+//@ assumes: ghost text library (support/gtext.rs) stands for alloc's String / format!; callee contracts C06.writer.board_layout, rank_text, castling_field, side_ep_counters
+#[kani::proof]
+#[kani::unwind(98)]
+fn vk_c06_writer_assembly() {
+    let game = any_fields_game();
+    unsafe {
+        g3::GAME_ADDR = &game as *const g::Game as usize;
+        g3::BOARD_ADDR = &game.board as *const g::Board as usize;
+    }
+    let got = g3::write(&game);
+    kani::cover!(got.len() == 11);
+    assert!(got.eq_bytes(b"B S C E H F"), "FEN fields in the wrong order, missing, or wrongly separated");
+}
+
 //@ obligation: C06.canary.writer
-//@ status: experimental
 //@ canary: true
 //@ timeout: 600
 //@ mem_gb: 4
